@@ -84,11 +84,12 @@ Proof. reflexivity. Qed.
 Lemma request_scope_nil p client : request_scope p client (Some []) = None.
 Proof. unfold request_scope. destruct (allows p client); reflexivity. Qed.
 
-(* the refresh of this query carries no subnet option upstream *)
-Definition refresh_blind (c : ccfg) (qy : query) (aged : bool) : Prop :=
-  c_prefetch c = false \/ aged = false \/
-  new_opts (policy_of (c_b c)) internal_client
-           (forwarded (policy_of (c_b c)) (addr_from_slice_unmap (q_remote qy)) (q_opts qy)) = [].
+(* the refresh request has its subnet options removed, so nothing is re-attached for it *)
+Lemma refresh_is_blind p client l : new_opts p client (filter (fun o => negb (is_ecs o)) l) = [].
+Proof.
+  apply new_opts_no_client_ecs. unfold has_ecs.
+  induction l as [|x l IH]; [reflexivity|]. cbn. destruct (is_ecs x) eqn:E; cbn; [exact IH|]. rewrite E. exact IH.
+Qed.
 
 Definition req_scope_of (c : ccfg) (qy : query) : option pfx :=
   let pol := policy_of (c_b c) in
@@ -118,11 +119,10 @@ Qed.
 
 Lemma serve_sound c st qy up aged rf st' ob :
   inv (policy_of (c_b c)) (c_ecs_max c) st ->
-  refresh_blind c qy aged ->
   serve c st qy up aged rf = (st', ob) ->
   inv (policy_of (c_b c)) (c_ecs_max c) st' /\ step_ok c st qy ob.
 Proof.
-  intros HI HB. unfold serve.
+  intros HI. unfold serve.
   set (pol := policy_of (c_b c)) in *.
   set (client := addr_from_slice_unmap (q_remote qy)) in *.
   set (fw := forwarded pol client (q_opts qy)) in *.
@@ -147,10 +147,8 @@ Proof.
         - intros _. exists e. repeat split; auto. destruct (HI e Hin) as [HE _]. rewrite <- HE, Hsc. reflexivity. }
       destruct (c_prefetch c && aged && prefetch_eligible e) eqn:EPF.
       * intros H. inversion H; subst st' ob; clear H. split; [|apply HS2].
-        (* the refreshed entry keeps the shared key; blind refresh: nothing was forwarded *)
-        apply andb_prop in EPF. destruct EPF as [EPF _]. apply andb_prop in EPF. destruct EPF as [EP EA].
-        assert (new_opts pol internal_client fw = []) as HNO.
-        { destruct HB as [HB|[HB|HB]]; [congruence|congruence|exact HB]. }
+        (* the refreshed entry keeps the shared key; nothing was forwarded for it *)
+        pose proof (refresh_is_blind pol internal_client fw) as HNO.
         intros x Hx. apply in_st_insert in Hx. destruct Hx as [Hx|Hx]; [|apply HI; exact Hx].
         subst x. cbn. unfold effective. cbn. rewrite HNO. rewrite request_scope_nil. rewrite Hsc.
         split; [reflexivity|]. intros sS HS. discriminate.
@@ -176,16 +174,40 @@ Fixpoint run_ok (c : ccfg) (st : store) (ops : list cop) : Prop :=
       step_ok c st (co_q o) ob /\ run_ok c st' r
   end.
 
-Definition history_blind (c : ccfg) (ops : list cop) : Prop :=
-  Forall (fun o => refresh_blind c (co_q o) (co_aged o)) ops.
-
 Lemma run_sound c ops : forall st,
-  inv (policy_of (c_b c)) (c_ecs_max c) st -> history_blind c ops -> run_ok c st ops.
+  inv (policy_of (c_b c)) (c_ecs_max c) st -> run_ok c st ops.
 Proof.
-  induction ops as [|o r IH]; intros st HI HB; [exact I|]. cbn.
+  induction ops as [|o r IH]; intros st HI; [exact I|]. cbn.
   destruct (serve c st (co_q o) (co_up o) (co_aged o) (co_rf o)) as [st' ob] eqn:ES.
-  inversion HB; subst. destruct (serve_sound _ _ _ _ _ _ _ _ HI H1 ES) as [HI' HS].
+  destruct (serve_sound _ _ _ _ _ _ _ _ HI ES) as [HI' HS].
   split; [exact HS|]. apply IH; assumption.
+Qed.
+
+(* the invariant itself along any history: every entry is filed under exactly the audience of the
+   answer it holds *)
+Lemma run_inv c ops : forall st,
+  inv (policy_of (c_b c)) (c_ecs_max c) st -> inv (policy_of (c_b c)) (c_ecs_max c) (fst (run c st ops)).
+Proof.
+  induction ops as [|o r IH]; intros st HI; [exact HI|]. cbn.
+  destruct (serve c st (co_q o) (co_up o) (co_aged o) (co_rf o)) as [st' ob] eqn:ES.
+  destruct (serve_sound _ _ _ _ _ _ _ _ HI ES) as [HI' _].
+  specialize (IH st' HI'). destruct (run c st' r) as [st'' obs]. exact IH.
+Qed.
+
+(* the refresh sends no subnet option upstream *)
+Lemma refresh_upstream_sees_no_subnet c st qy up aged rf st' ob x :
+  serve c st qy up aged rf = (st', ob) -> ob_refresh ob = Some x -> x = None.
+Proof.
+  unfold serve.
+  destruct (scoped_lookup st (q_name qy) (q_cd qy) _) as [[e0 sc]|].
+  - destruct (c_prefetch c && aged && prefetch_eligible e0); intros H Hr; inversion H; subst ob; cbn in Hr.
+    + rewrite refresh_is_blind in Hr. inversion Hr. reflexivity.
+    + discriminate.
+  - destruct (st_lookup st (q_name qy) (q_cd qy) None) as [e0|].
+    + destruct (c_prefetch c && aged && prefetch_eligible e0); intros H Hr; inversion H; subst ob; cbn in Hr.
+      * rewrite refresh_is_blind in Hr. inversion Hr. reflexivity.
+      * discriminate.
+    + intros H Hr. inversion H; subst ob. discriminate.
 Qed.
 
 (* what "effective" means in terms of the declared scope, the forwarded source and the floor *)
@@ -239,38 +261,25 @@ Proof.
     + intros H Hne. inversion H; subst ob. cbn in Hne. congruence.
 Qed.
 
-(* ------------------------------------------------------------------ the refresh that is not blind *)
-(* default-style configuration (forwarding on, every client eligible), prefetch on.
-   N1 (no subnet option) fetches answer 1, filed shared.  A (203.0.113.0/24) hits it when it is due
-   for refresh; the refresh goes upstream WITH A's subnet, the authority answers 4 with SCOPE /24,
-   and that answer replaces the shared entry.  N2 (no subnet option) is then served answer 4. *)
+(* ------------------------------------------------------------------ the history that used to leak *)
+(* N1 (no subnet option) fetches answer 1, filed shared.  A (203.0.113.0/24) hits it when it is due
+   for refresh; the refresh goes upstream WITHOUT A's subnet (before commit d979d25 it carried it,
+   the authority answered with SCOPE /24 and that answer was served to everyone).  N2 is served the
+   refreshed, audience-neutral answer. *)
 Definition leak_cfg : ccfg := mk_ccfg (mk_bargs true 0 0 0 0 []) 0 true.
 Definition ecs_a : ecs := mk_ecs 1 24 0 (mk_ipb 4 3405803776).
 Definition leak_ops : list cop :=
   [ mk_cop (mk_query (mk_ipb 4 3325256713) (Some []) false 0) (mk_uresp 1 60000000000 None) false (mk_uresp 2 60000000000 None);
     mk_cop (mk_query (mk_ipb 4 3325256714) (Some [OEcs ecs_a]) false 0) (mk_uresp 3 60000000000 None) true
-           (mk_uresp 4 60000000000 (Some [OEcs (mk_ecs 1 24 24 (mk_ipb 4 3405803776))]));
+           (mk_uresp 4 60000000000 None);
     mk_cop (mk_query (mk_ipb 4 3325256715) (Some []) false 0) (mk_uresp 5 60000000000 None) false (mk_uresp 6 60000000000 None) ].
 
-Lemma refresh_leaks_scoped_answer :
-  let '(st, obs) := run leak_cfg [] leak_ops in
-  (* the refresh carried A's subnet upstream *)
-  nth 1 obs (mk_obs 9 9 None None None) = mk_obs 2 1 None None (Some (Some ecs_a)) /\
-  (* N2, who sent no subnet option, is served the answer scoped to 203.0.113.0/24 *)
-  nth 2 obs (mk_obs 9 9 None None None) = mk_obs 2 4 None None None /\
-  req_scope_of leak_cfg (co_q (nth 2 leak_ops (mk_cop (mk_query (mk_ipb 0 0) None false 0) (mk_uresp 0 0 None) false (mk_uresp 0 0 None)))) = None /\
-  exists e, In e st /\ ce_ans e = 4 /\ ce_scope e = None /\
-            effective (policy_of (c_b leak_cfg)) e = Some (mk_pfx true 3405803776 24).
-Proof.
-  vm_compute. repeat split.
-  eexists. split; [left; reflexivity|]. repeat split.
-Qed.
-
-Lemma leak_not_blind : ~ history_blind leak_cfg leak_ops.
-Proof.
-  intros H. inversion H as [|? ? _ H2]; subst. inversion H2 as [|? ? H3 _]; subst.
-  destruct H3 as [H3|[H3|H3]]; vm_compute in H3; discriminate.
-Qed.
+Lemma refresh_is_audience_neutral_example :
+  snd (run leak_cfg [] leak_ops) =
+  [ mk_obs 0 1 (Some None) (Some (None, 60000000000%Z)) None;
+    mk_obs 2 1 None None (Some None);
+    mk_obs 2 4 None None None ].
+Proof. vm_compute. reflexivity. Qed.
 
 (* ------------------------------------------------------------------ unconditional facts *)
 (* TTL cap: holds for every history, blind or not *)
